@@ -4,7 +4,8 @@ From Coq Require Export ZArith NArith List Uint63 Bool.
 From Coq.Strings Require Import Byte.
 Export ListNotations.
 
-Inductive verdict := VOk | VDisagree | VReject | VBoth | VBad.
+Inductive verdict := VOk | VDisagree | VReject | VBoth | VBad
+| VKnown (finding : N).   (* agrees with the model; the oracle rejects, but only by the deviation of the numbered known finding *)
 
 (* agree: model = implementation on the compared observables;
    accept: the property's oracle accepts the implementation's output *)
